@@ -3,8 +3,8 @@ the location tables at the end of SimOps.__init__), over nested Python lists.
 
 What is modelled (and nothing else - anything outside raises ModelError, i.e. the evaluated rule falls back, never a verdict):
   * item read with integers, slices and at most one index array / list per subscript (outer selection = numpy's result in that case);
-    a read that selects a sub-array with integers and slices only is a *view* in numpy: here it is a copy that remembers being one,
-    and a store through it is refused;
+    a read that selects a sub-array with integers and slices only is a *view* in numpy: here it is a copy that remembers where it was taken
+    from; a store through it is written through to that array (a view does not see later changes of its origin: not modelled);
   * item store of a scalar or of an array that has the selected shape (or broadcasts to it from the right), duplicates: last one wins;
   * elementwise + - * // % & | ^ and comparisons with broadcasting from the right; bool (+) bool = or, bool (*) bool = and as in numpy;
   * shape / ndim / len / iteration over the first axis; max / min / sum / any / all / copy / astype(ignored) / tolist;
@@ -252,6 +252,8 @@ class NDArr:
         r = self._getitem(k)
         if isinstance(r, NDArr):
             r.dt = self.dt
+            if r.view:
+                r._origin = (self, k)       # a store through the view is written through to the array it was taken from
         return r
 
     def _getitem(self, k):
@@ -270,8 +272,9 @@ class NDArr:
         return r
 
     def __setitem__(self, k, val):
-        if self.view:
-            raise ModelError('ndarr: store through a view')
+        origin = getattr(self, '_origin', None)
+        if self.view and origin is None:
+            raise ModelError('ndarr: store through a view of unknown origin')
         sels = self._selectors(k)
         val = _raw(val)
         # shape of the selection
@@ -309,6 +312,9 @@ class NDArr:
             for i in path[:-1]:
                 d = d[i]
             d[path[-1]] = v
+        if origin is not None:
+            parent, pk = origin
+            parent[pk] = NDArr(self.d)          # write-through (the other direction - the view seeing later changes of its origin - is not modelled)
 
     # ---------------------------------------------------------------- arithmetic
     def _bin(self, o, f, swap=False):
